@@ -22,8 +22,15 @@ class WouldBlockForever(BaseException):
     """the request asked select to wait forever and nothing will ever arrive"""
 
 
+class SpinsForever(BaseException):
+    """the request keeps calling select on a descriptor set the kernel rejects (EBADF): it would never return"""
+
+
 class Sim:
+    SPIN_LIMIT = 3000  # consecutive failing select calls without virtual time moving
+
     def __init__(self, encoding="utf-8"):
+        self.failing_selects = 0
         self.now = 1000.0
         self.actions = []  # [(at, seq, callable)] pending during the current request
         self._seq = 0
@@ -41,7 +48,17 @@ class Sim:
         self.select_calls += 1
         deadline = None if timeout is None else self.now + max(0, timeout)
         while True:
-            r, _, _ = real_select.select(rlist, [], [], 0)
+            try:
+                r, _, _ = real_select.select(rlist, [], [], 0)
+            except (OSError, ValueError):
+                # what the real select does: the caller sees the error.  A caller that answers by calling again, forever,
+                # would hang the process; that is reported instead of hanging the check
+                self.failing_selects += 1
+                if self.failing_selects > self.SPIN_LIMIT:
+                    self.failing_selects = 0
+                    raise SpinsForever()
+                raise
+            self.failing_selects = 0
             if r:
                 return r, [], []
             nxt = None
